@@ -410,7 +410,7 @@ def gen_lookalike():
     # of a framing / header field (the BeginString field as a whole, '34=', '9='): the Reject still refers to the message's own number
     # a longer tag ending in 35 / 34 with a plausible value AHEAD of the genuine MsgType / MsgSeqNum field, before and after logon
     for role in ("acceptor", "initiator"):
-        for ex in (5, 6, 7, 8, 9, 10):
+        for ex in (5, 6, 7, 8, 9, 10, 11):
             p = Peer()
             st = [act("run"), p("app", extra=ex), p("unknown", extra=ex), p("hbt", extra=ex), p("testreq", id=[73], extra=ex), p("logon", hb=30, extra=ex),
                   p("app", extra=ex), p("testreq", id=[74], extra=ex), p("hbt", extra=ex), p("resend", b=1, e=0, extra=ex), p("logout", extra=ex), p("logon", hb=30, extra=ex)]
@@ -651,7 +651,10 @@ def run_driver(run, binp, scns, name, testname="TestScenarios", extra_env=None):
                     a["numTxt"] = NOT_NUMBERS[(h // 4) % len(NOT_NUMBERS)] if nn and h % 4 in (1, 2) else ""
                     # the same message written differently (an unknown field, header fields in another order): one in four valid ones
                     if "extra" not in a:
-                        a["extra"] = 1 + (h // 8) % 10 if (not nn and a.get("integ", "none") == "none" and a.get("sq", "ok") == "ok" and h % 4 == 3) else 0
+                        a["extra"] = 1 + (h // 8) % 11 if (not nn and a.get("integ", "none") == "none" and a.get("sq", "ok") == "ok" and h % 4 == 3) else 0
+                        # a damaged message that also carries PossDupFlag=Y (one in three of those with a damaged CheckSum / BodyLength)
+                        if a.get("integ", "none") in ("checksum", "bodylength") and a.get("sq", "ok") == "ok" and h % 3 == 0:
+                            a["extra"] = 11
             # deployment options that must make no difference: a non-strict unmarshaller, a store that answers with nothing instead
             # of an error (a third of the scenarios each)
             if isinstance(sc.get("cfg"), dict):
